@@ -164,6 +164,13 @@ def bracket_lexer(stream):
                 whitespacebuf = StringIO()
             tokenbuf.write(character)
         character = stream.read(1)
+    # end of input: hand out what is still buffered
+    tval = tokenbuf.getvalue()
+    wval = whitespacebuf.getvalue()
+    if len(tval) > 0:
+        yield tval, "TOKEN"
+    if len(wval) > 0:
+        yield wval, "WS"
 
 
 def brackets(in_file, in_encoding, **params):
